@@ -1059,6 +1059,13 @@ class Envelope:
                 )
 
         # Check that correct operation is applied to the correct system
+        if not isinstance(
+            operation._operation_type, (FockOperationType, PolarizationOperationType)
+        ):
+            raise ValueError(
+                "Only Fock and Polarization operations can be applied to the "
+                "states of an envelope"
+            )
         if isinstance(operation._operation_type, FockOperationType):
             if not isinstance(states[0], Fock):
                 raise ValueError(
